@@ -453,6 +453,17 @@ def m_map_get(mutable):
     return f
 
 
+def m_indexmap_get_index_mut(it, a, ty, callee):
+    """IndexMap::get_index_mut(i) -> Option<(&K, &mut V)> (insertion order = order of the association list)"""
+    mp, idx = a
+    m = it.load(mp)
+    if not (isinstance(idx, Int) and idx.conc):
+        raise Inconclusive('IndexMap::get_index_mut with a symbolic index')
+    if idx.v >= len(m.fields):
+        return opt_none()
+    return opt_some(Tup([Ptr(Cell('key', m.keys[idx.v])), Ptr(mp.cell, mp.path + (idx.v,))]))
+
+
 def m_map_contains_key(it, a, ty, callee):
     return deref(it, a[0]).find(it, deref(it, a[1])) is not None
 
@@ -502,6 +513,14 @@ def m_occupied_insert(it, a, ty, callee):
     m = it.load(e.mp)
     old = m.fields[e.idx]
     it.store(e.mp, m.with_field(e.idx, a[1]))
+    return old
+
+
+def m_occupied_remove(it, a, ty, callee):
+    e = deref(it, a[0]) if isinstance(a[0], Ptr) else a[0]
+    m = it.load(e.mp)
+    old = m.fields[e.idx]
+    it.store(e.mp, MapModel(m.keys[:e.idx] + m.keys[e.idx + 1:], m.fields[:e.idx] + m.fields[e.idx + 1:], m.kind))
     return old
 
 
@@ -837,6 +856,9 @@ def install(it):
     A(r'std::collections::VecDeque::<.*>::(new|with_capacity)', m_new_seq)
     A(r'std::collections::(HashMap|HashSet|BTreeMap|BTreeSet|VecDeque)::<.*>::len', m_len)
     A(r'std::vec::Vec::<.*>::len', m_len)
+    A(r'indexmap::IndexMap::<.*>::len', m_len)
+    A(r'indexmap::IndexMap::<.*>::is_empty', m_is_empty)
+    A(r'indexmap::IndexMap::<.*>::get_index_mut', m_indexmap_get_index_mut)
     A(r'std::collections::(HashMap|HashSet|BTreeMap|BTreeSet|VecDeque)::<.*>::is_empty', m_is_empty)
     A(r'std::vec::Vec::<.*>::is_empty', m_is_empty)
     A(r'std::collections::(HashSet|BTreeSet)::<.*>::insert', m_set_insert)
@@ -859,6 +881,7 @@ def install(it):
     A(r"std::collections::hash_map::Entry::<.*>::or_default", m_entry_or_default)
     A(r"std::collections::hash_map::OccupiedEntry::<.*>::(get|get_mut|into_mut)", m_occupied_get)
     A(r"std::collections::hash_map::OccupiedEntry::<.*>::insert", m_occupied_insert)
+    A(r"std::collections::hash_map::OccupiedEntry::<.*>::remove", m_occupied_remove)
     A(r"std::collections::hash_map::VacantEntry::<.*>::insert", m_vacant_insert)
     A(r'std::collections::HashMap::<.*>::values', m_iter_values)
     A(r'<.* as std::iter::IntoIterator>::into_iter', m_into_iter_identity)
